@@ -168,7 +168,7 @@ func coqKind(t string) string {
 }
 
 func execHQSeen(input string) Result {
-	bad := func(tag string) Result { return Result{Term: "HC [] []", Tags: []string{tag}} }
+	bad := func(tag string) Result { return Result{Term: "HC [] [] false", Tags: []string{tag}} }
 	kv := kvOf(input)
 	urls, ok1 := parseURLs(kv["urls"])
 	steps, ok2 := parseHQSteps(kv["steps"])
@@ -184,6 +184,10 @@ func execHQSeen(input string) Result {
 	}
 	if total > 300 {
 		return bad("rejected:size")
+	}
+	off, okc := applyOperatorFlags(kv["cfg"], true, "hqseenjob")
+	if !okc {
+		return bad("rejected:syntax")
 	}
 	in := newInterner()
 	// initial set of the HQ
@@ -290,12 +294,19 @@ func execHQSeen(input string) Result {
 		}
 	}
 	tags[fmt.Sprintf("steps:%d", bucketN(len(steps)))] = true
+	if off {
+		tags["operator:seencheck-off"] = true
+	} else if cfgOf(kv) != "-" {
+		tags["operator:other-flags"] = true
+	} else {
+		tags["operator:defaults"] = true
+	}
 	var tl []string
 	for k := range tags {
 		tl = append(tl, k)
 	}
 	sortStrings(tl)
-	return Result{Term: fmt.Sprintf("HC %s %s", coqList(seen0), coqList(terms)), Tags: tl, Nontrivial: mixed}
+	return Result{Term: fmt.Sprintf("HC %s %s %s", coqList(seen0), coqList(terms), coqBool(off)), Tags: tl, Nontrivial: mixed}
 }
 
 func genHQSeen(r *Rng, i int, tier string) string {
@@ -307,7 +318,24 @@ func genHQSeen(r *Rng, i int, tier string) string {
 	}
 	mal := r.Chance(10)
 	var steps []hqStep
+	var lifeTree *specNode
+	if r.Chance(35) { // one seed's life, pass after pass
+		lifeTree = &specNode{url: r.Intn(nAbs), st: 7, kids: []*specNode{{url: r.Intn(len(pool)), st: 0}, {url: r.Intn(len(pool)), st: 0}}}
+		n += 2
+		mal = false
+	}
 	for k := 0; k < n; k++ {
+		if lifeTree != nil && r.Chance(75) {
+			sc := byte('O')
+			if r.Chance(8) {
+				sc = 'E'
+			}
+			steps = append(steps, hqStep{kind: 'P', spec: lifeTree.clone(), script: sc})
+			if !evolveSpec(r, lifeTree, len(pool), 45) {
+				lifeTree = nil
+			}
+			continue
+		}
 		kind := byte('P')
 		if r.Chance(40) {
 			kind = 'C'
@@ -328,7 +356,7 @@ func genHQSeen(r *Rng, i int, tier string) string {
 	for k := r.Intn(4); k > 0; k-- {
 		seen = append(seen, strconv.Itoa(r.Intn(nAbs)))
 	}
-	return fmt.Sprintf("urls=%s seen=%s steps=%s", hexURLs(pool), strings.Join(seen, ","), formatHQSteps(steps))
+	return fmt.Sprintf("cfg=%s urls=%s seen=%s steps=%s", genOperatorFlags(r), hexURLs(pool), strings.Join(seen, ","), formatHQSteps(steps))
 }
 
 func shrinkHQSeen(input string) []string {
@@ -340,7 +368,7 @@ func shrinkHQSeen(input string) []string {
 	var out []string
 	emit := func(seen string, ss []hqStep) {
 		if len(ss) > 0 {
-			out = append(out, fmt.Sprintf("urls=%s seen=%s steps=%s", kv["urls"], seen, formatHQSteps(ss)))
+			out = append(out, fmt.Sprintf("cfg=%s urls=%s seen=%s steps=%s", cfgOf(kv), kv["urls"], seen, formatHQSteps(ss)))
 		}
 	}
 	for i := range steps {
